@@ -5,6 +5,7 @@ Helper lemmas live in Proofs/C07*.lean; the templates are GENERATED (Gen/MatchTe
 import PartituraModel.Model.MatchLine
 import PartituraModel.Gen.MatchTemplates
 import PartituraModel.Proofs.C07Search
+import PartituraModel.Proofs.C07Line
 
 namespace C07
 open Model Model.Template Model.MatchCodec Model.MatchLine
@@ -67,6 +68,15 @@ theorem search_offset (t : Template) (v : String → List Char) (pre tail : List
     search t.pat (pre ++ (render t.out v ++ tail)) = some (groupsOf t.pat v) :=
   search_skip _ _ _ _ (noEarly_spec _ _ _ hpre) (matchAt_format t v tail ht hv)
 
+-- non-vacuity of `search_offset`: the `note(` pattern is first tried inside `snote(` and fails there
+example : ∃ t ∈ Gen.matchTemplates, t.name = "v0.5.0/note" ∧
+    noEarly t.pat "snote(1-1,[C,#],4,1:2,1/8,1/4+1/8,0.5,1.25,[staff1,s])-".toList
+      "note(n1,[C,#],4,100,200,210,60).".toList = true ∧
+    (search t.pat "snote(1-1,[C,#],4,1:2,1/8,1/4+1/8,0.5,1.25,[staff1,s])-note(n1,[C,#],4,100,200,210,60).".toList).map
+      (fun g => g.map (fun x => String.ofList x.2))
+      = some ["n1", "C", "#", "4", "100", "200", "210", "60"] := by
+  decide +kernel
+
 /-- every template generated from the live classes is well formed; re-checked by the kernel whenever
     the source changes a regular expression, an out_pattern or a field table -/
 theorem templates_ok : ∀ t ∈ Gen.matchTemplates, TemplateOK t := by
@@ -75,6 +85,19 @@ theorem templates_ok : ∀ t ∈ Gen.matchTemplates, TemplateOK t := by
 
 /-- the table is not empty and holds what the property enumerates (non-vacuity of `templates_ok`) -/
 example : 40 ≤ Gen.matchTemplates.length ∧ 40 ≤ Gen.matchComposites.length := by decide +kernel
+
+/-- well-formedness of a composite line (decidable): every component is a generated template, and the
+    identifier the parser looks for (`-deletion.`, `insertion-`, …) is one of the literals the line is
+    written with -/
+def compositeOK (ts : List Template) (c : Composite) : Bool :=
+  c.parts.all (fun p => match p with
+    | .tpl n => (findTpl ts n).isSome
+    | .lit _ => true)
+  && c.idents.all (fun i => c.parts.contains (.lit i))
+
+/-- every composite line generated from the live classes is well formed -/
+theorem composites_ok : ∀ c ∈ Gen.matchComposites, compositeOK Gen.matchTemplates c = true := by
+  decide +kernel
 
 -- non-vacuity of `search_format`: a 0.5.0 score note followed by its performed note
 def exSnote : String → List Char
@@ -197,5 +220,34 @@ example : toV1Line Gen.matchTemplates Gen.matchComposites "snote_note" (0, 5, 0)
 
 example : toV1Line Gen.matchTemplates Gen.matchComposites "soft" (0, 3, 0) [.int 10, .int 64]
     = some ("soft", "soft(10,64).".toList) := by decide +kernel
+
+-- ---------------------------------------------------------------- whole lines
+
+open C07Line in
+/-- **parse (format x) = x, and formatting is a fixpoint**, for every well-formed template whose fields
+    are interpreted independently (`plain`: pedal lines, ptime, stime, section, the 1.0.0 performed note,
+    ornament / trill heads): if every value is written to a text its interpreter reads back as that value
+    (`RT` - what the per-codec theorems `int_roundtrip`, `fixed_decimal_roundtrip_partial`,
+    `frac_string_roundtrip_partial`, `version_roundtrip`, `key_names` establish) and the texts satisfy
+    `FieldsOK`, then the line is written, the search over the written line (whatever follows it) returns
+    the same values, and writing those again gives the identical text.
+    `_partial`: lines with an Attribute-dependent value (info, meta, scoreprop) and with the pitch
+    post-processing (snote, pre-1.0 note) and composite lines are covered by `search_format` /
+    `search_offset` for the pattern part and by the correspondence for the interpretation part. -/
+theorem line_roundtrip_partial (t : Template) (vals : List Val) (es : List (String × Str)) (tail : List Char)
+    (ht : TemplateOK t) (hp : plain t = true) (hrt : RT t.fields vals es) (hv : FieldsOK t (textOf es) tail) :
+    ∃ line, formatT t vals = some line ∧ parseT t (line ++ tail) = .ok vals ∧
+      ((parseT t (line ++ tail)).toOption.bind (formatT t)) = some line := by
+  obtain ⟨h1, h2⟩ := line_roundtrip_plain t vals es tail ht hp hrt hv
+  exact ⟨_, h1, h2, by rw [h2]; exact h1⟩
+
+-- non-vacuity: the 1.0.0 performed note inside a note pair, and a soft pedal line
+example : ∃ t ∈ Gen.matchTemplates, t.name = "v1.0.0/note" ∧ C07Line.plain t = true ∧
+    C07Line.rtB t.fields [.str "n1".toList, .int 61, .int 100, .int 200, .int 60, .int 1, .int 0]
+      [("Id", "n1".toList), ("MidiPitch", "61".toList), ("Onset", "100".toList), ("Offset", "200".toList),
+       ("Velocity", "60".toList), ("Channel", "1".toList), ("Track", "0".toList)] = true ∧
+    FieldsOK t (C07Line.textOf [("Id", "n1".toList), ("MidiPitch", "61".toList), ("Onset", "100".toList),
+       ("Offset", "200".toList), ("Velocity", "60".toList), ("Channel", "1".toList), ("Track", "0".toList)]) [] := by
+  decide +kernel
 
 end C07
